@@ -158,6 +158,16 @@ func (st Stage) terminal(recv *Expr) *Expr {
 			return MCall(recv, "multiUse", Map([]string{"s", "bad"}, []*Expr{sum, lam([]string{"x", "y"}, Bin("*", Var("x"), Var("y")))}))
 		}
 		return MCall(recv, "multiUse", Map([]string{"n", "s", "bad"}, []*Expr{lam([]string{"l"}, MCall(l, "first")), sum, Str("c")}))
+	case "multiUseListUsedTwice":
+		// error path: a consumer uses its list a second time (that is an error) while the
+		// other consumers still have work to do
+		twice := lam([]string{"l"}, Bin("+", MCall(MCall(l, "map", lam([]string{"e"}, e)), "size"), MCall(MCall(l, "map", lam([]string{"e"}, e)), "size")))
+		if st.P%2 == 1 {
+			twice = lam([]string{"l"}, Bin("+", MCall(l, "first"), MCall(l, "first")))
+		}
+		return MCall(recv, "multiUse", Map([]string{"a", "b", "c"}, []*Expr{twice,
+			lam([]string{"l"}, MCall(MCall(l, "map", lam([]string{"e"}, mod(Bin("*", w(e), Int(2))))), "sum")),
+			lam([]string{"l"}, MCall(l, "size"))}))
 	case "multiUseFailingConsumer":
 		// error path: one consumer fails at once, the others still want the whole list
 		return MCall(recv, "multiUse", Map([]string{"n", "f", "s"}, []*Expr{
@@ -257,7 +267,7 @@ func GenSpec(t *rapid.T, cfg PipeConfig, depth int) *Spec {
 	}
 	term := terminals
 	if cfg.EarlyStop {
-		term = []string{"first", "topSize", "present", "indexWhere", "first", "topSize", "size", "multiUse", "reduce", "multiUseRejected", "multiUseFailingConsumer"}
+		term = []string{"first", "topSize", "present", "indexWhere", "first", "topSize", "size", "multiUse", "reduce", "multiUseRejected", "multiUseFailingConsumer", "multiUseListUsedTwice"}
 	}
 	sp.Terminal = Stage{Name: term[rapid.IntRange(0, len(term)-1).Draw(t, "terminal")], Fail: -1, Profile: "fast", P: rapid.IntRange(0, 60).Draw(t, "tp")}
 	if cfg.Slow && rapid.IntRange(0, 3).Draw(t, "slowTerminal") == 0 {
